@@ -102,7 +102,7 @@ def _jsonable(case: Any) -> Any:
 def run_case(check: Callable, case: Any, subcheck: str) -> Res:
     """Run one case under the watchdog; escapes become violations."""
     signal.signal(signal.SIGPROF, _alarm)
-    signal.setitimer(signal.ITIMER_PROF, CASE_TIMEOUT_S)
+    signal.setitimer(signal.ITIMER_PROF, getattr(check, "case_timeout", CASE_TIMEOUT_S))     # a check whose single case is a whole state-graph search declares its own limit
     try:
         r = check(case)
         if r is None:
